@@ -110,7 +110,7 @@ def parseROp : List String â†’ Option ROp
   | ["next", n] => n.toInt?.map .next
   | ["peek", n] => n.toInt?.map .peek
   | ["skip", n] => n.toInt?.map .skip
-  | ["release"] => some .release
+  | ["release"] => some (.release none)
   | _ => none
 
 def parseWrOp : List String â†’ Option WrOp
@@ -177,7 +177,7 @@ def poolModel (st : DSt) (iid kind : String) (op : List String) : List (String Ã
     match cur, parseROp op with
     | some (.dr s), some o =>
       let r := kDR.step zeroDirty s o
-      (if o = .release then assocDel I iid else assocSet I iid (.dr r.1), pRdRes r.2.1)
+      ((match o with | .release _ => assocDel I iid | _ => assocSet I iid (.dr r.1)), pRdRes r.2.1)
     | _, _ => (I, "bad-op")
   | "dw", op =>
     match cur, parseWrOp op with
